@@ -88,10 +88,10 @@ func allOffsets(line string) []int {
 }
 
 // exhaustive family: one banner, every line, every placement
-func genExhaustive(ops string, outs map[int]string, msgsUsed []string, sampleEvery int) []Case {
+func genExhaustive(ops string, outs map[int]string, msgsUsed []string, sampleEvery int, noAsk bool) []Case {
 	dev, tgt := buildBase(ops)
 	lines := physLines(dev, tgt)
-	base := Case{Device: dev, Target: tgt, Behav: map[string]Behav{}}
+	base := Case{Device: dev, Target: tgt, Behav: map[string]Behav{}, NoAsk: noAsk}
 	for i, o := range outs {
 		if i < len(lines) {
 			base.Behav[lines[i]] = Behav{Out: o}
@@ -133,7 +133,7 @@ func genRandom(r *RNG, n int) []Case {
 		}
 		dev, tgt := buildBase(ops.String())
 		lines := physLines(dev, tgt)
-		c := Case{Device: dev, Target: tgt, Behav: map[string]Behav{}}
+		c := Case{Device: dev, Target: tgt, Behav: map[string]Behav{}, NoAsk: r.Chance(40)}
 		for _, l := range lines {
 			b := Behav{Out: Pick(r, goodOuts)}
 			if r.Chance(6) {
@@ -170,10 +170,9 @@ func genFaults(thorough bool) []Case {
 		}
 		return c
 	}
-	noAsk := "reload in 2\nProceed with reload? [confirm]<!>" + prompt
 	l := []Case{
-		// reload accepted without the save question
-		mk(map[string][]string{"reload in 2": {noAsk}}),
+		// reload accepted without the save question (also a first-class variant: Case.NoAsk)
+		func() Case { c := mk(nil); c.NoAsk = true; return c }(),
 		// write memory: overwrite question
 		mk(map[string][]string{"write memory": {"write memory\nWarning: Attempting to overwrite an NVRAM configuration previously written by a different version of the system image.\nOverwrite the previous NVRAM configuration?[confirm]<!>Building configuration...\n  Compressed configuration from 10194 bytes to 5372 bytes[OK]\n" + prompt}}),
 		// write memory: unexpected result
